@@ -685,7 +685,8 @@ func (s *ClientSession) notifyDoResultSucc() {
 	}
 
 	//pull有可能还需要小包发送，不使用缓存
-	if s.sessionStat.BaseType() == base.SessionBaseTypePushStr {
+	// 注意，缓冲大小为0时不能调用，否则底层会套上一层默认大小（4096字节）的bufio，数据滞留在里面发不出去
+	if s.sessionStat.BaseType() == base.SessionBaseTypePushStr && s.option.WriteBufSize > 0 {
 		s.conn.ModWriteBufSize(s.option.WriteBufSize)
 	}
 
